@@ -47,6 +47,12 @@ def _r6_entry_written_whole(ctx):
                     ctx.check(okk, "R6", "entry-refreshed-with-its-lifetime:%s" % f[1:], ctx.where(b, st["sp"]),
                               "an existing cache entry gets a new %s but keeps its old lifetime: the refreshed reply is then served (and its "
                               "TTLs decremented) for as long as the previous reply was valid" % f[1:])
+            # ... and a new reply is born when it is stored: the hit path subtracts the entry's age from the reply's TTLs
+            for bb, st in flds.get(".reply", []):
+                okb = any(cfg.dominates(bb, b2) or cfg.dominates(b2, bb) for b2, _ in flds.get(".birth", []))
+                ctx.check(okb, "R6", "entry-refreshed-with-its-birth", ctx.where(b, st["sp"]),
+                          "an existing cache entry gets a new reply but keeps its old birth: the new reply's TTLs are then reduced by the age of "
+                          "the reply it replaced")
     ctx.ok("R6", "field-wise entry refreshes examined", "", "%d" % n)
 
 
